@@ -183,6 +183,8 @@ def main(mod):
         if calls:
             nat = native_run(mod.PKG, [(f, args) for f, args in calls])
             I, ctx = env.interp()
+            if hasattr(mod, 'validation_setup'):
+                mod.validation_setup(I, ctx)
             for (f, args), nr in zip(calls, nat):
                 fid = '%s/%s.%s' % (MOD, mod.PKG, f)
                 pargs = [mkstr(x) if isinstance(x, (bytes, bytearray)) else x for x in args]
@@ -256,7 +258,7 @@ def main(mod):
     allcex = [c for r in results for c in r['cex']]
     # replay (bounded number per distinct (func, code))
     seen = Counter()
-    replay_dir = os.path.join(VERIF, 'replays', pid)
+    replay_dir = os.path.join(os.environ.get('VERIF_REPLAY_DIR') or os.path.join(VERIF, 'replays'), pid)
     for c in allcex:
         key = (c['func'], c.get('code'))
         kf = [f for f in mine if cex_matches(f, c)]
@@ -293,8 +295,9 @@ def main(mod):
                             known_findings_matched=sorted(matched), exhaustive=False,
                             explanation='bounded symbolic execution of the go/ssa form of the listed functions (regenerated from /repo on this run); every job is decided by z3 over all values of its symbolic inputs within the stated bounds'),
               assumptions=meta.get('assumptions', []), wall_s=round(wall, 2), violations=len(violations))
-    os.makedirs(os.path.join(VERIF, 'evidence'), exist_ok=True)
-    json.dump(ev, open(os.path.join(VERIF, 'evidence', pid + '.json'), 'w'), indent=1)
+    evdir = os.environ.get('VERIF_EVIDENCE_DIR') or os.path.join(VERIF, 'evidence')
+    os.makedirs(evdir, exist_ok=True)
+    json.dump(ev, open(os.path.join(evdir, pid + '.json'), 'w'), indent=1)
     print('[%s] %d jobs, %d obligations, %d solver queries (%d unsat, %d sat, %d unknown), solver %.1fs, wall %.1fs' %
           (pid, len(jobs), nobl, stats.get('solver_calls', 0), stats.get('unsat', 0), stats.get('sat', 0), stats.get('unknown', 0), stats.get('solver_time', 0.0), wall))
     for k, f in sorted(matched.items()):
